@@ -365,6 +365,27 @@ func newCallWorld(x *mc.X) *callWorld {
 		var d callRec
 		return w.rec.Parse(zjson.Decode(strings.NewReader("{")), &d), &d
 	}})
+	// front ends that fail to decode, into a top-level pointer and into a struct
+	add(&callKind{name: "Ptr(Record).Parse/zjson/malformed-document", class: "record-json", run: func(w *callWorld) (any, any) {
+		var d *callRec
+		return z.Ptr(w.rec).Parse(zjson.Decode(strings.NewReader("{")), &d), &d
+	}})
+	add(&callKind{name: "Ptr(Record).Parse/zhttp-json/null-document", class: "record-json", run: func(w *callWorld) (any, any) {
+		var d *callRec
+		r := httptest.NewRequest(http.MethodPost, "/", strings.NewReader("null"))
+		r.Header.Set("Content-Type", "application/json")
+		return z.Ptr(w.rec).Parse(zhttp.Request(r), &d), &d
+	}})
+	add(&callKind{name: "Ptr(Record).Parse/zhttp-form/malformed-body", class: "record-flat", run: func(w *callWorld) (any, any) {
+		var d *callRec
+		r := httptest.NewRequest(http.MethodPost, "/", strings.NewReader("a=%zz"))
+		r.Header.Set("Content-Type", "application/x-www-form-urlencoded")
+		return z.Ptr(w.rec).Parse(zhttp.Request(r), &d), &d
+	}})
+	add(&callKind{name: "Slice(Slice(String.Catch)).Min(3).Parse/one row [three nested contexts, failing container test]", class: "slice", run: func(w *callWorld) (any, any) {
+		var d [][]string
+		return z.Slice(z.Slice(z.String().Min(2).Catch("x"))).Min(3).Parse([]any{[]any{"a", "bb"}}, &d), &d
+	}})
 	for _, q := range []struct{ n, q string }{
 		{"valid", "qname=alice&qstreet=main&qlabels=aa&qlabels=bb"},
 		{"failing", "qname=x&qlabels=a&qlabels=bb"},
